@@ -197,6 +197,14 @@ pub fn c11(ctx: &mut Ctx) {
                     for b in [2u64, 4, 15, 16, 48, 49, 128, 129] {
                         vals.push((format!("{b}"), Felt::from(b)));
                     }
+                    // exponent aliases of the current value: 2^(e + k·ord 2) = 2^e in the field
+                    if let Ok(e) = u64::try_from(cur.to_biguint()) {
+                        let al = models::exponent_aliases(e);
+                        if let (Some(a), Some(b)) = (al.first(), al.last()) {
+                            vals.push(("+ord2".into(), *a));
+                            vals.push(("+k*ord2".into(), *b));
+                        }
+                    }
                     for (nm, v) in vals {
                         if v == cur {
                             continue;
